@@ -1,6 +1,7 @@
 package main
 
 import (
+	"go/token"
 	"go/types"
 	"strings"
 
@@ -414,55 +415,15 @@ func checkC20(c *Check) {
 		c.Ob("R4", "without a lease every submission is answered with the no-lease error", em.Pos(), okNo, "")
 	}
 
+	// ---- R2 (cont.) no wait that can never end: a receive from a timer's channel on the edge where that timer's Stop()
+	// returned true waits for a tick that Stop just cancelled. It is tolerated only where the timer field can be shown to
+	// be nil always (every non-nil assignment is itself behind "field != nil": by induction from the nil the
+	// constructor leaves, none is ever executed).
+	c.timerDrainRule("R2", pkg)
+
 	// ---- R5 only validated manifests (validity = hash equals the latest recorded version, stand-alone and cross validation)
 	c.manifestVersionRule("R5")
-	{
-		okData := true
-		nl := 0
-		for _, call := range callsIn(vr, false) {
-			if calleeMethod(call) == "validateRequest" {
-				nl++
-				d := false
-				for _, a := range factsAt(call.Block()) {
-					if a.Op == "neq" && nrm(Sym(a.X)) == "p:m.data" && isNilConst(a.Y) {
-						d = true
-					}
-				}
-				if !d {
-					okData = false
-				}
-				// manifests collected only on the nil edge, from the same request
-				vcall := call.(*ssa.Call)
-				okApp := false
-				for _, c2 := range callsIn(vr, false) {
-					if calleeFull(c2) == "builtin.append" && strings.Contains(Sym(c2.Common().Args[1]), ".value.Manifest") {
-						same := strings.Contains(nrm(Sym(c2.Common().Args[1])), strings.TrimSuffix(strings.TrimPrefix(nrm(Sym(vcall.Call.Args[1])), ""), ""))
-						reqArg := nrm(Sym(vcall.Call.Args[1]))
-						same = strings.Contains(nrm(Sym(c2.Common().Args[1])), "&"+reqArg+".value.Manifest") || same
-						if okEdgeAt(c2.Block(), vcall) && same {
-							okApp = true
-						}
-					}
-				}
-				c.Ob("R5", "a manifest is collected only if the validation of that same request returned nil", call.Pos(), okApp, "an unvalidated manifest can be recorded and announced")
-			}
-		}
-		c.Ob("R5", "validation runs only with the deployment's chain data present", vr.Pos(), okData && nl == 1, "")
-		// m.manifests grows only from the collected list
-		nm := 0
-		for _, fn := range l.pkgFuncs(pkg) {
-			eachInstr(fn, func(i ssa.Instruction) {
-				if st, ok := i.(*ssa.Store); ok && nrm(Sym(st.Addr)) == "&p:m.manifests" {
-					nm++
-					v := nrm(Sym(st.Val))
-					c.Ob("R5", "validated-manifest list written in "+fn.Name(), st.Pos(), fn == vr && strings.HasPrefix(v, "builtin.append(p:m.manifests, [") && strings.Contains(v, ".value.Manifest"), short(v))
-				}
-			})
-		}
-		if nm < 1 {
-			c.Fail("C20-R5 lost instances")
-		}
-	}
+	c.onlyValidatedRecorded("R5")
 }
 
 // leaseClosedRouting: the manifest service hands every lease-closed event of this provider to the deployment's manager
@@ -523,4 +484,133 @@ func (c *Check) leaseClosedRouting(rule string) {
 	}
 	c.Ob(rule, "manifest service: lease-closed events are filtered by the lease's provider being this provider", rm.Pos(), okProv, "the event is not compared with this provider's address: closed leases of this provider are ignored (or foreign ones acted on)")
 	c.Ob(rule, "manifest service: every lease-closed event of this provider with a manager reaches manager.removeLease", rm.Pos(), okMgr && extra == "", "removeLease is skipped under an extra condition ("+extra+"): the manager keeps a closed lease and goes on accepting and announcing manifests for it")
+}
+
+// onlyValidatedRecorded: the manager records (and later announces) a manifest only on the nil edge of the validation
+// of the very request it came from, validation runs only with chain data present, and nothing else writes the list
+// of validated manifests (shared by C10 and C20).
+func (c *Check) onlyValidatedRecorded(rule string) {
+	l := c.L
+	pkg := "provider/manifest"
+	vr := l.Func(pkg, "manager", "validateRequests")
+	c.Analysed(fnName(vr))
+	{
+		okData := true
+		nl := 0
+		for _, call := range callsIn(vr, false) {
+			if calleeMethod(call) == "validateRequest" {
+				nl++
+				d := false
+				for _, a := range factsAt(call.Block()) {
+					if a.Op == "neq" && nrm(Sym(a.X)) == "p:m.data" && isNilConst(a.Y) {
+						d = true
+					}
+				}
+				if !d {
+					okData = false
+				}
+				// manifests collected only on the nil edge, from the same request
+				vcall := call.(*ssa.Call)
+				okApp := false
+				for _, c2 := range callsIn(vr, false) {
+					if calleeFull(c2) == "builtin.append" && strings.Contains(Sym(c2.Common().Args[1]), ".value.Manifest") {
+						same := strings.Contains(nrm(Sym(c2.Common().Args[1])), strings.TrimSuffix(strings.TrimPrefix(nrm(Sym(vcall.Call.Args[1])), ""), ""))
+						reqArg := nrm(Sym(vcall.Call.Args[1]))
+						same = strings.Contains(nrm(Sym(c2.Common().Args[1])), "&"+reqArg+".value.Manifest") || same
+						if okEdgeAt(c2.Block(), vcall) && same {
+							okApp = true
+						}
+					}
+				}
+				c.Ob(rule, "a manifest is collected only if the validation of that same request returned nil", call.Pos(), okApp, "an unvalidated manifest can be recorded and announced")
+			}
+		}
+		c.Ob(rule, "validation runs only with the deployment's chain data present", vr.Pos(), okData && nl == 1, "")
+		// m.manifests grows only from the collected list
+		nm := 0
+		for _, fn := range l.pkgFuncs(pkg) {
+			eachInstr(fn, func(i ssa.Instruction) {
+				if st, ok := i.(*ssa.Store); ok && nrm(Sym(st.Addr)) == "&p:m.manifests" {
+					nm++
+					v := nrm(Sym(st.Val))
+					c.Ob(rule, "validated-manifest list written in "+fn.Name(), st.Pos(), fn == vr && strings.HasPrefix(v, "builtin.append(p:m.manifests, [") && strings.Contains(v, ".value.Manifest"), short(v))
+				}
+			})
+		}
+		if nm < 1 {
+			c.Fail("%s-%s lost instances", c.ID, rule)
+		}
+	}
+}
+
+func (c *Check) timerDrainRule(rule, pkg string) {
+	l := c.L
+	for _, fn := range l.pkgFuncs(pkg) {
+		eachInstr(fn, func(i ssa.Instruction) {
+			rc, ok := i.(*ssa.UnOp)
+			if !ok || rc.Op != token.ARROW {
+				return
+			}
+			ld, ok := rc.X.(*ssa.UnOp)
+			if !ok {
+				return
+			}
+			fa, ok := ld.X.(*ssa.FieldAddr)
+			if !ok {
+				return
+			}
+			tn, f := structFieldOf(fa)
+			if tn != "time.Timer" || f != "C" {
+				return
+			}
+			timer := Sym(fa.X)
+			stopped := false
+			for _, a := range factsAt(rc.Block()) {
+				if a.Op == "true" {
+					if cv, _ := callOf(a.X); cv != nil && calleeFull(cv) == "(*time.Timer).Stop" && Sym(cv.Call.Args[0]) == timer {
+						stopped = true
+					}
+				}
+			}
+			if !stopped {
+				return
+			}
+			// can the timer field hold a timer at all?
+			field := lastField(timer)
+			alwaysNil, nst := true, 0
+			for _, g := range l.pkgFuncs(pkg) {
+				eachInstr(g, func(j ssa.Instruction) {
+					st, isS := j.(*ssa.Store)
+					if !isS {
+						return
+					}
+					sfa, isFA := st.Addr.(*ssa.FieldAddr)
+					if !isFA {
+						return
+					}
+					if _, sf := structFieldOf(sfa); sf != field || !strings.HasSuffix(st.Val.Type().String(), "time.Timer") {
+						return
+					}
+					if isNilConst(st.Val) {
+						return
+					}
+					nst++
+					guarded := false
+					for _, a := range factsAt(st.Block()) {
+						if a.Op == "neq" && isNilConst(a.Y) && "&"+Sym(a.X) == Sym(st.Addr) {
+							guarded = true
+						}
+					}
+					if !guarded {
+						alwaysNil = false
+					}
+				})
+			}
+			if alwaysNil {
+				c.Info(rule, "timer drain after a successful Stop() in "+fnName(fn)+" is dead code (the timer field is never set)", rc.Pos(), "every assignment of a timer to ."+field+" is behind ."+field+" != nil")
+				return
+			}
+			c.Ob(rule, "no receive from a timer's channel after its Stop() returned true in "+fnName(fn), rc.Pos(), false, "Stop() returning true means the tick was cancelled: the receive from ."+field+".C never completes and the manager stops answering submissions")
+		})
+	}
 }
